@@ -483,8 +483,7 @@ func monitorsBusy() int {
 func (cl *cluster) settle() {
 	deadline := time.Now().Add(20 * time.Second)
 	for {
-		if monitorsBusy() == 0 && cl.c.VerifTryLock() {
-			cl.c.VerifCanonicalOrder()
+		if monitorsBusy() == 0 && cl.c.VerifCanonicalOrderIfFree() {
 			return
 		}
 		if time.Now().After(deadline) {
